@@ -30,7 +30,7 @@ impl<T: Sized> JoinHandle<T> {
     pub fn join(self) -> Option<T> {
         // The OS will change to futex value to 0 and then wake it when the thread finishes.
         unsafe {
-            futex_wait_fast(self.tsm.get_futex(), UNFINISHED);
+            wait_for_exit(self.tsm.get_futex());
             // The thread has completed, we have exclusive access to the memory.
             // Pack it into a box, then consume the box to get the value off the heap.
             let val = self.tsm.get_value::<T>().into_inner();
@@ -40,6 +40,16 @@ impl<T: Sized> JoinHandle<T> {
             core::mem::forget(self);
             val
         }
+    }
+}
+
+/// Waits until the OS has cleared the exit futex.
+/// A futex wait can return without the futex word having changed (a spurious wake-up),
+/// so only the word itself tells whether the thread is gone.
+#[inline]
+fn wait_for_exit(futex: &AtomicU32) {
+    while futex.load(Ordering::Acquire) == UNFINISHED {
+        futex_wait_fast(futex, UNFINISHED);
     }
 }
 
@@ -56,7 +66,7 @@ impl<T: Sized> Drop for JoinHandle<T> {
             {
                 // The thread got its work done first, we need to wait for it to exit, signalled
                 // by the OS through the futex, then we know we have exclusive access to the memory.
-                futex_wait_fast(self.tsm.get_futex(), UNFINISHED);
+                wait_for_exit(self.tsm.get_futex());
                 // Nobody will join, drop the value the thread left behind before freeing its slot
                 drop((*self.tsm.value_mut::<T>()).take());
                 self.tsm.dealloc();
